@@ -25,8 +25,46 @@ structure DeliverState where
   d : Option (Cmd.Decoder Nat) := none
   seq : Nat := 0
 
+def snakeStatic : Cmd.StaticKind → String
+  | .setVolume => "set_volume" | .setPlaybackRate => "set_playback_rate" | .setPanning => "set_panning"
+  | .setLoopRegion => "set_loop_region" | .pause => "pause" | .resume => "resume" | .stop => "stop"
+  | .seekBy => "seek_by" | .seekTo => "seek_to"
+def snakeStream : Cmd.StreamKind → String
+  | .setVolume => "set_volume" | .setPlaybackRate => "set_playback_rate" | .setPanning => "set_panning"
+  | .setLoopRegion => "set_loop_region" | .pause => "pause" | .resume => "resume" | .stop => "stop"
+  | .seekBy => "seek_by" | .seekTo => "seek_to"
+def snakeTrack : Cmd.TrackKind → String
+  | .setVolume => "set_volume" | .setPosition => "set_position"
+  | .setSpatializationStrength => "set_spatialization_strength" | .pause => "pause" | .resume => "resume"
+def snakeClock : Cmd.ClockKind → String
+  | .setSpeed => "set_speed" | .setTicking => "set_ticking" | .reset => "reset"
+def snakeListener : Cmd.ListenerKind → String
+  | .setPosition => "set_position" | .setOrientation => "set_orientation"
+def snakeLfo : Cmd.LfoKind → String
+  | .setWaveform => "set_waveform" | .setFrequency => "set_frequency" | .setAmplitude => "set_amplitude"
+  | .setOffset => "set_offset" | .setPhase => "set_phase"
+def snakeFilter : Cmd.FilterKind → String
+  | .setMode => "set_mode" | .setCutoff => "set_cutoff" | .setResonance => "set_resonance" | .setMix => "set_mix"
+
+/-- the reader list of a component as Model/CommandReaders.lean has it (the harness extracts the same
+    list from /repo's source) -/
+def readersOf (c : String) : Option String :=
+  let j := fun (l : List String) => String.intercalate "," l
+  match c with
+  | "static" => some (j (Cmd.staticReaders.map snakeStatic))
+  | "stream_sound" => some (j (Cmd.streamSoundReaders.map snakeStream))
+  | "stream_decoder" => some (j (Cmd.streamDecoderReaders.map snakeStream))
+  | "track" => some (j ((Cmd.trackReaders true).map snakeTrack))
+  | "clock" => some (j (Cmd.clockReaders.map snakeClock))
+  | "listener" => some (j (Cmd.listenerReaders.map snakeListener))
+  | "lfo" => some (j (Cmd.lfoReaders.map snakeLfo))
+  | "tweener" => some (j (Cmd.tweenerReaders.map (fun _ => "set")))
+  | "filter" => some (j (Cmd.filterReaders.map snakeFilter))
+  | _ => none
+
 def deliverStep (st : DeliverState) (tok : List String) : Option (DeliverState × String) :=
   match tok with
+  | ["readers", c] => (readersOf c).map (fun r => (st, r))
   | ["mgr"] => some ({}, "ok")
   | ["newt"] => some ({ st with t := some (Chan.init, 0) }, "ok")
   | ["news"] => some ({ st with s := some (Chan.init, 0, 0) }, "ok")
